@@ -302,6 +302,32 @@ static vnode *random_tree(vrng *r, int flavor)
         static const int lim[] = { 255, 254, 255, 100, 30 };
         return vt_ladder(r, rootk, lim[vrn(r, 5)], lim[vrn(r, 5)]);
     }
+    if (vrn(r, 50) == 0) {
+        /* wide: a root with hundreds of siblings (a lookup then steps over hundreds of smaller names, a skip over hundreds of
+         * elements); the children are scalars or small subtrees, the names unique by construction */
+        vnode *root = vt_new(rootk);
+        int n = 200 + (int)vrn(r, vrn(r, 3) ? 300 : 1200);
+        vgen gs; vg_default(&gs, K_OBJ); gs.max_nodes = 4; gs.big_permille = 0; gs.huge_permille = 0;
+        for (int k = 0; k < n; k++) {
+            vnode *kid;
+            uint32_t t = vrn(r, 20);
+            if (t == 0) { gs.root_kind = vrn(r, 2) ? K_OBJ : K_ARR; kid = vt_gen(r, &gs); }
+            else if (t < 4) { uint8_t b[3] = { (uint8_t)vr64(r), (uint8_t)vr64(r), (uint8_t)vr64(r) }; kid = vt_str(t == 1 ? K_BYTES : K_STR, b, vrn(r, 4)); }
+            else kid = vt_int(vt_rand_int(r));
+            if (rootk == K_OBJ) {
+                uint8_t nm[5]; uint32_t nl = 0;
+                if (vrn(r, 2)) nm[nl++] = (uint8_t)vr64(r);
+                nm[nl++] = (uint8_t)(k >> 8); nm[nl++] = (uint8_t)k;
+                if (vrn(r, 3) == 0) nm[nl++] = (uint8_t)vr64(r);
+                vt_setname(kid, nm, nl);
+            }
+            vt_add(root, kid);
+        }
+        if (rootk == K_OBJ) vt_sortfields(root);
+        vw_count("wide_documents", 1);
+        vw_max("max_siblings", root->nkids);
+        return root;
+    }
     if (shape < 45) { g.max_nodes = 4 + (int)vrn(r, 20); }
     else if (shape < 70) { g.max_nodes = 30 + (int)vrn(r, 120); g.max_width = 12; g.container_permille = 400; }
     else if (shape < 80) { g.max_nodes = 40 + (int)vrn(r, 600); g.max_width = 2; g.container_permille = 930; g.max_obj_depth = 50 + (int)vrn(r, 206); g.max_arr_depth = 3; g.big_permille = 0; g.huge_permille = 0; }
